@@ -79,4 +79,13 @@ theorem tree_counters_any_global_schedule (cfg : Path → Cfg) (caps : Path → 
 theorem source_invokeProcessorSync : GeneratedSrc.invokeProcessorSync = ExpectedSrc.invokeProcessorSync := by rfl
 theorem source_invokeProcessorFanout : GeneratedSrc.invokeProcessorFanout = ExpectedSrc.invokeProcessorFanout := by rfl
 
+
+open Firebolt.Exec in
+/-- **isolation, whole tree**: a step of one node never changes a counter of another node (its received / processed /
+filtered / failed, or the discarded_events_total it keeps for its own children) -/
+theorem tree_counters_isolated_any_step (N N' : Net) (p : Path) (a : Act) (hg : gstep N p a = some N') (r : Path) (hr : r ≠ p) :
+    ((N'.st r).received, (N'.st r).processed, (N'.st r).filtered, (N'.st r).failed, (N'.st r).discarded) =
+    ((N.st r).received, (N.st r).processed, (N.st r).filtered, (N.st r).failed, (N.st r).discarded) :=
+  tree_counters_isolated N N' p a hg r hr
+
 end Firebolt.C16
